@@ -129,6 +129,9 @@ def main():
         results = list(ex.map(lambda it: one(it, a.tier, a.all_checks, stable), items))
     for r in results:
         own = {p: r.get("checks", {}).get(p, {}).get("verdict") for p in r["props"]}
+        if r["kind"] == "control":  # every check that was run must be silent: show the ones that were not
+            own.update({p: c.get("verdict") + " :: " + c.get("first", "")[:200] for p, c in r.get("checks", {}).items() if not str(c.get("verdict")).startswith("silent")})
+            own["checks_run"] = len(r.get("checks", {}))
         print(r["id"], "tests_ok=" + str(r.get("stable_tests_still_pass")), "demo=" + str((r.get("demo_fails_with_change"), r.get("demo_passes_without"))), own, r.get("error", ""))
     if a.no_write or a.only:
         return
